@@ -203,7 +203,9 @@ impl C13 {
                         "lower-err:[reference-cycle]".to_string()
                     } else if matches!(e, tx3_lang::lowering::Error::MissingAnalyzePhase(_)) && policy_names_unresolved_policy(src, &prog) {
                         "lower-err:[policy-names-unresolved-policy]".to_string()
-                    } else if long_chain && matches!(e, tx3_lang::lowering::Error::MissingAnalyzePhase(_)) {
+                    } else if long_chain && (matches!(e, tx3_lang::lowering::Error::MissingAnalyzePhase(_)) || matches!(&e, tx3_lang::lowering::Error::InvalidAst(m) if m.starts_with("unknown function"))) {
+                        // (a call whose callee was left unresolved by the 9 passes is refused as an unknown function:
+                        // lowering dispatches on the callee's symbol)
                         "lower-err:[local-chain>=9]".to_string()
                     } else {
                         format!("lower-err:{}:{}", lower_err_variant(&e), what)
